@@ -515,6 +515,9 @@ func propC07(j *Job) {
 		}
 	}
 	cases = append(cases, famW5(modes, 2)...)
+	if j.Thorough() {
+		cases = append(cases, withSuspend(famW5(modes, 1), 1)...)
+	}
 	// a partially reliable stream alone on the association: consecutive TSNs belong to
 	// consecutive messages, so one FORWARD-TSN covers a lost message together with later ones the
 	// receiver already holds completely (they must be handed to the reader parked in ReadSCTP)
